@@ -49,8 +49,10 @@ def rowSlice (r : Row) (a b : Option Int) : Except Err Row :=
       if nm.parentLength ≠ 0 ∧ s > e then .error .runtimeError   -- `IndelMap(locations=…)` is a TypeError
       else .ok ⟨nm, if nm.parentLength ≠ 0 then PySlice.slice r.data (some s) (some e) 1 else []⟩
 
-/-- `Aligned.__getitem__(int)`: `self[i : i + 1]` -/
-def rowInt (r : Row) (i : Int) : Except Err Row := rowSlice r (some i) (some (i + 1))
+/-- `Aligned.__getitem__(int)`: python index semantics, then `self[i : i + 1]` -/
+def rowInt (r : Row) (i : Int) : Except Err Row :=
+  let i := if i < 0 then i + len r.map else i
+  if 0 ≤ i ∧ i < len r.map then rowSlice r (some i) (some (i + 1)) else .error .indexError
 
 /-- IUPAC complement (`dna = true`: A↔T, else A↔U) -/
 def comp (dna : Bool) (c : Char) : Char :=
@@ -67,13 +69,7 @@ def rowRc (dna : Bool) (r : Row) : Except Err Row :=
   | .error e => .error e
   | .ok m => .ok ⟨m, (r.data.reverse).map (comp dna)⟩
 
-/-- `Aligned.__add__` when both operands hold the *same* data object (`aln + aln`) -/
-def rowAddSame (r : Row) : Except Err Row :=
-  match add r.map r.map with
-  | .error e => .error e
-  | .ok m => .ok ⟨m, r.data⟩
-
-/-- `Aligned.__add__` for distinct data objects: concatenate the gapped strings and re-parse -/
+/-- `Aligned.__add__`: concatenate the gapped strings and re-parse -/
 def rowAddOther (r o : Row) : Row := rowOfString (gapped r ++ gapped o)
 
 /-- `Aligned.__getitem__(FeatureMap)` for a feature map made of the real spans `locs` (non-empty,
@@ -123,6 +119,11 @@ def rowTakePositions (r : Row) (cols : List Int) : Except Err Row :=
   match go cols with
   | .error e => .error e
   | .ok s => .ok (rowOfString s)
+
+/-- `take_positions(cols, negate=True)`: every column `i in range(len(seq))` not in `cols` -/
+def rowTakePositionsNeg (r : Row) (cols : List Int) : Except Err Row :=
+  let keep := ((List.range (len r.map).toNat).map fun (i : Nat) => (i : Int)).filter fun i => !cols.contains i
+  rowTakePositions r keep
 
 /-- `take_seqs(names, negate)` -/
 def takeSeqs {α} (a : List (String × α)) (names : List String) (negate : Bool) : List (String × α) :=
